@@ -500,7 +500,8 @@ def harnesses(tier):
 
 EXPECT = ["C02.adapted_tree_nd.measure_times_intensity_is_cell_mass", "C02.alias.measure_equals_p", "C02.bst.measure_equals_p", "C02.huffman.measure_equals_p", "C02.table.measure_equals_p",
           "C02.inversion.measure_equals_p", "C02.alias.history_independent", "C02.alias.batch_equals_single",
-          "C02.alias.never_returns_zero_probability_state", "C02.inversion.history_independent"]
+          "C02.alias.never_returns_zero_probability_state", "C02.inversion.history_independent",
+          "C02.adapted_tree_1d.measure_times_intensity_is_cell_mass"]
 
 
 def main(tier):
